@@ -3,6 +3,7 @@ package props
 import (
 	"errors"
 	"fmt"
+	"math"
 	"strconv"
 	"strings"
 	"sync/atomic"
@@ -20,6 +21,9 @@ type tspCase struct {
 
 func genTspCase(t *rapid.T) tspCase {
 	n := rapid.IntRange(0, sz(9, 24)).Draw(t, "n")
+	if rare(t, "large", uint64(sz(300, 60))) {
+		n = rapid.IntRange(31, sz(34, 40)).Draw(t, "ln") // many rows: anything done "every so many rows" happens
+	}
 	w := make([][]int, n)
 	for i := range w {
 		w[i] = make([]int, i)
@@ -31,6 +35,8 @@ func genTspCase(t *rapid.T) tspCase {
 				w[i][j] = -rapid.IntRange(1, 1000000).Draw(t, "neg")
 			case 2:
 				w[i][j] = rapid.IntRange(1<<40, 1<<62).Draw(t, "big")
+			case 3:
+				w[i][j] = rapid.SampledFrom([]int{math.MinInt64, math.MinInt64 + 1, math.MaxInt64, math.MinInt32, math.MaxInt32, -1, 1, -9, -10, -99, -100}).Draw(t, "boundary")
 			default:
 				// asymmetric in definition: depends on (i,j) in a way that a swapped call would not reproduce
 				w[i][j] = 100*i + j + rapid.IntRange(0, 3).Draw(t, "small")*10000
@@ -174,9 +180,17 @@ func checkTspCase(c tspCase, rec *Rec) error {
 	rec.NonTrivial(n >= 2)
 	rec.Labelf("writes-%d", bucket(W))
 	sched := 0
+	// n <= 24: all four variants at every write index; larger n (thousands of writes): every write index with the
+	// two variants transient/no bytes and permanent/half the bytes
+	variants := [][2]bool{{false, false}, {false, true}, {true, false}, {true, true}}
+	if n > 24 {
+		variants = [][2]bool{{false, false}, {true, true}}
+		rec.Label("large-n-two-variants-per-write")
+	}
 	for f := 0; f < W; f++ {
-		for _, perm := range []bool{false, true} {
-			for _, partial := range []bool{false, true} {
+		for _, vr := range variants {
+			perm := vr[0]
+			for _, partial := range []bool{vr[1]} {
 				fw := &faultWriter{failAt: f, permanent: perm, partial: partial}
 				var ferr error
 				if p := try(func() { ferr = tsp.LIB(fw, n, weights) }); p != nil {
@@ -192,6 +206,14 @@ func checkTspCase(c tspCase, rec *Rec) error {
 				}
 			}
 		}
+	}
+	// a failed call must not leave anything behind: a fault-free call afterwards gives the same bytes as before
+	again := &faultWriter{failAt: -1}
+	if p := try(func() { err = tsp.LIB(again, n, weights) }); p != nil || err != nil {
+		return fmt.Errorf("LIB(n=%d) after the failing calls: panic=%v err=%v", n, p, err)
+	}
+	if string(again.buf) != string(ok.buf) {
+		return fmt.Errorf("LIB(n=%d) writes different bytes after earlier calls failed: %d bytes instead of %d:\n%s", n, len(again.buf), len(ok.buf), clip(string(again.buf), 400))
 	}
 	atomic.AddInt64(&tspSchedules, int64(sched))
 	SetExtra("fault_schedules_enumerated", atomic.LoadInt64(&tspSchedules))
@@ -224,8 +246,8 @@ func clipInts(a []int) string {
 
 func init() {
 	RegisterRapid("C20_output_and_faults",
-		"rapid generates (n in 0..9 quick / 0..24 thorough, weight table with zero, negative, >= 2^40 and position-dependent entries; the weight function flags any call outside 0 <= j < i < n). Per case: the fault-free output is parsed by an independent TSPLIB reader and compared with the table; then the fault space is ENUMERATED COMPLETELY: for every index f of the W Write calls of the fault-free run x {only call f fails, f and all later calls fail} x {0 bytes accepted, half accepted} LIB must return a non-nil error (4*W schedules per case). Non-trivial: n >= 2 (the tabwriter-buffered weight section is non-empty).",
-		Budget{Checks: 1200, Shards: 1}, Budget{Checks: 10000, Shards: 16}, genTspCase, checkTspCase)
+		"rapid generates (n in 0..9 quick / 0..24 thorough, weight table with zero, negative, >= 2^40, int boundary (MinInt64, MaxInt64, ...) and position-dependent entries; about one case in three hundred (thorough: sixty) has n in 31..34 (40), where every write index is still enumerated but with two of the four variants; the weight function flags any call outside 0 <= j < i < n). Per case: the fault-free output is parsed by an independent TSPLIB reader and compared with the table; then the fault space is ENUMERATED COMPLETELY: for every index f of the W Write calls of the fault-free run x {only call f fails, f and all later calls fail} x {0 bytes accepted, half accepted} LIB must return a non-nil error (4*W schedules per case); a fault-free call after all the failing ones must reproduce the first output byte for byte. Non-trivial: n >= 2 (the tabwriter-buffered weight section is non-empty).",
+		Budget{Checks: 1200, Shards: 1}, Budget{Checks: 3000, Shards: 16}, genTspCase, checkTspCase)
 	RegisterEnum("C20_small_n_exhaustive_faults",
 		"enumeration: every n in 0..12 with the fixed position-coded table w(i,j) = 100*i+j (and its negation), all 4*W fault schedules each; complete for that family.",
 		true, Budget{Shards: 1}, Budget{Shards: 1},
